@@ -128,8 +128,9 @@ def rule_arguments(ctx):
     ev_body = _arm_body(om, "Event")
     problems = []
     try:
-        for args in (None, [], [Sym("a0")]):
-            for kw in (None, {}, {"k": Sym("v")}):
+        ed = ctx.program.cls("autobahn.wamp.types.EventDetails").methods["__init__"].params()[1:]
+        fields = ("publisher", "publisher_authid", "publisher_authrole", "transaction_hash", "retained", "forward_for")
+        for args, kw, ev_topic in [(a_, k_, t_) for a_ in (None, [], [Sym("a0")]) for k_ in (None, {}, {"k": Sym("v")}) for t_ in (None, "com.topic.leaf")]:
                 kinds = [(None, None), (Sym("obj"), "details"), (Sym("obj0", truthy=False), "d")]
                 subs_ = []
                 for i, (obj, det) in enumerate(kinds):
@@ -137,9 +138,11 @@ def rule_arguments(ctx):
                     subs_.append(Sym(f"subscription{i}", handler=h, topic="com.topic", id=55, active=True))
                 kw0 = dict(kw) if kw is not None else None
                 env = {"msg.subscription": 55, "self._subscriptions": {55: subs_}, "self": Sym("session"), "msg.args": args, "msg.kwargs": kw, "msg.publication": 4711,
-                       "msg.topic": None, "msg.enc_algo": None, "msg.x_acknowledged_delivery": None}
-                for nm in ("publisher", "publisher_authid", "publisher_authrole", "transaction_hash", "retained", "forward_for", "payload", "enc_serializer", "enc_key"):
+                       "msg.topic": ev_topic, "msg.enc_algo": None, "msg.x_acknowledged_delivery": None}
+                for nm in ("payload", "enc_serializer", "enc_key"):
                     env[f"msg.{nm}"] = None
+                for nm in fields:
+                    env[f"msg.{nm}"] = Sym(f"event-{nm}")
                 invoked = []
 
                 def default(fname, a_, k_=None):
@@ -147,7 +150,9 @@ def rule_arguments(ctx):
                         invoked.append((a_[0], list(a_[1:]), dict(k_ or {})))
                         return Sym("future")
                     if fname == "types.EventDetails":
-                        return Sym("details", args=list(a_))
+                        bound = dict(zip(ed, a_))
+                        bound.update(k_ or {})
+                        return Sym("details", args=list(a_), bound=bound)
                     return Sym(f"<{fname}>")
                 t = Tiny(env, default_call=default)
                 r = t.run(ev_body)
@@ -169,10 +174,18 @@ def rule_arguments(ctx):
                         d = got_k[det]
                         if not (isinstance(d, Sym) and d.name == "details" and len(d.attrs["args"]) >= 2 and d.attrs["args"][0] is s_ and d.attrs["args"][1] == 4711):
                             problems.append(f"{s_.name}: the event details it gets are not built from its own subscription and the event's publication id")
+                        elif isinstance(d, Sym):
+                            b = d.attrs["bound"]
+                            want_topic = ev_topic or "com.topic"
+                            if b.get("topic") != want_topic:
+                                problems.append(f"event published to {ev_topic!r} on a subscription to 'com.topic': details.topic is {b.get('topic')!r}, expected {want_topic!r}")
+                            for nm in fields:
+                                if b.get(nm) is not env[f"msg.{nm}"]:
+                                    problems.append(f"details.{nm} is {b.get(nm)!r}, expected the EVENT's {nm}")
                 if kw is not None and kw != kw0:
                     problems.append(f"published kwargs {kw0}: the event's own kwargs dict was modified to {kw} while fanning out")
         ctx.ob("every handler of the id is invoked once, in order, with (bound object if any) + the published args, the published kwargs and its own details iff requested "
-               "[3 handler kinds x 9 payload shapes]", not problems, "; ".join(sorted(set(problems))[:2]), om.fn.loc(ec))
+               "(topic the event was published to, publisher, ... from the EVENT) [3 handler kinds x 18 event shapes]", not problems, "; ".join(sorted(set(problems))[:2]), om.fn.loc(ec))
     except AnalysisError as e:
         raise AnalysisError(f"[C11.3-handler-arguments] EVENT branch outside the modelled subset: {e}")
 
@@ -284,6 +297,8 @@ def rule_lists(ctx):
     om = get_onmessage(ctx)
     an = om.an
     problems = {"sub": [], "unsub": [], "unsubd": [], "event": []}
+    from .common import inline_private
+    inl = inline_private(ctx, ctx.program.cls(APPSESSION))  # private helpers are evaluated in place
 
     def subs(n, sid=55):
         return [Sym(f"s{i}", id=sid, active=True, topic="com.topic", handler=Sym(f"h{i}", fn=Sym(f"fn{sid}_{i}"), obj=None, details_arg=None)) for i in range(n)]
@@ -300,7 +315,7 @@ def rule_lists(ctx):
             req = Sym("subscribe-request", on_reply=Sym("future"), topic="com.topic", handler=Sym("H"))
             sends = []
             t = Tiny({"msg.request": 7, "msg.subscription": 55, "self._subscribe_reqs": {7: req}, "self._subscriptions": table, "self": Sym("session")},
-                     default_call=_mk_calls(sends))
+                     default_call=_mk_calls(sends), inline_self=inl)
             r = t.run(body)
             now = table.get(55)
             ok = r[0] in ("fall", "return") and isinstance(now, list) and len(now) == len(before) + 1 and all(a is b for a, b in zip(now, before)) and \
@@ -324,7 +339,7 @@ def rule_lists(ctx):
             before = list(lst)
             sends = []
             t = Tiny({fn.params()[1]: target, "self._subscriptions": table, "self._transport": Sym("transport"), "self._unsubscribe_reqs": {}, "self": Sym("session")},
-                     default_call=_mk_calls(sends))
+                     default_call=_mk_calls(sends), inline_self=inl)
             r = t.run(body_u)
             now = table.get(55)
             want = [x for x in before if x is not target]
@@ -369,7 +384,7 @@ def rule_lists(ctx):
                 table[55] = lst
             held = list(lst)
             req = Sym("unsubscribe-request", on_reply=Sym("future"), subscription_id=55)
-            t = Tiny({"msg.request": 9, "self._unsubscribe_reqs": {9: req}, "self._subscriptions": table, "self": Sym("session")}, default_call=_mk_calls([]))
+            t = Tiny({"msg.request": 9, "self._unsubscribe_reqs": {9: req}, "self._subscriptions": table, "self": Sym("session")}, default_call=_mk_calls([]), inline_self=inl)
             r = t.run(body)
             ok = r[0] in ("fall", "return") and 55 not in table and all(x.attrs.get("active") is False for x in held) and table.get(99) is other and other[0].attrs.get("active") is True \
                 and 9 not in t.env["self._unsubscribe_reqs"]
